@@ -76,17 +76,32 @@ def fresh_symfc():
 
 
 def twin_supercells(ctx, rng):
-    """Supercells with the same number of atoms and lattice points but different translation permutations, used one after
-    the other in one process, against the second one used alone in a freshly imported package (no state shared between
-    crystals: caches keyed by shapes, class attributes, module globals)."""
+    """Process isolation: two structures that agree in what a sloppy cache key would look at (numbers of atoms and lattice
+    points, geometry but not species, numeric cutoff radii) are processed one after the other in one process; everything
+    computed for the second one must equal what a freshly imported package computes for it alone."""
     from gens import atoms_of, base_cells, make_supercell
+    from tensors import same_span
 
-    pairs = [(("mono_P", (2, 1, 1), True), ("mono_P", (2, 1, 1), True)), (("tri1", (2, 2, 1), False), ("tri1", (4, 1, 1), False))]
+    def twin(name, diag, shuffle=False, numbers=None):
+        sc = make_supercell(base_cells()[name], diag, rng=rng, shuffle=shuffle)
+        if numbers is not None:
+            sc = dict(sc)
+            sc["numbers"] = np.array(numbers)
+            sc["name"] = sc["name"] + "-species" + "".join(str(z) for z in numbers)
+        return sc
+    from gens import reordered
+    mono = twin("mono_P", (2, 1, 1), True)
+    pairs = [("atom order", mono, reordered(mono), None),
+             ("supercell shape", twin("tri1", (2, 2, 1)), twin("tri1", (4, 1, 1)), None),
+             ("species on the same sites", twin("fcc_conv", (1, 1, 1), numbers=[13, 13, 13, 79]), twin("fcc_conv", (1, 1, 1)), None),
+             ("same numeric cutoff", twin("sheared", (2, 1, 1)), twin("needle", (1, 1, 2)), 3.4)]
     if not ctx.quick:
-        pairs += [(("tri2_P1", (1, 2, 1), True), ("tri2_P1", (1, 1, 2), True)), (("hcp", (2, 1, 1), True), ("hcp", (1, 1, 2), True)), (("tri1", (3, 1, 1), False), ("tri1", (1, 3, 1), True))]
-    for (ca, da, sa), (cb, db, sb) in pairs:
-        A = make_supercell(base_cells()[ca], da, rng=rng, shuffle=sa)
-        B = make_supercell(base_cells()[cb], db, rng=rng, shuffle=sb)
+        pairs += [("supercell shape", twin("tri2_P1", (1, 2, 1), True), twin("tri2_P1", (1, 1, 2), True), None),
+                  ("atom order", twin("hcp", (2, 1, 1), True), reordered(twin("hcp", (2, 1, 1))), 3.3),
+                  ("species on the same sites", twin("bcc_conv", (1, 1, 2), numbers=[26, 13, 26, 13]), twin("bcc_conv", (1, 1, 2)), None),
+                  ("same numeric cutoff", twin("tri2_P1", (2, 1, 1), True), twin("flat", (1, 2, 1)), 3.9),
+                  ("atom order", twin("tri2_P1", (3, 1, 1)), reordered(twin("tri2_P1", (3, 1, 1))), None)]
+    for what, A, B, cut in pairs:
         N = len(B["numbers"])
         if len(A["numbers"]) != N:
             continue
@@ -96,23 +111,32 @@ def twin_supercells(ctx, rng):
 
         def run(S, sc, d, f):
             out = {}
+            at = atoms_of(sc)
+            # expanded bases: no cutoff (orders 2, 3) and one numeric cutoff common to both structures (orders 2, 3, 4)
+            for c in ([None] if cut is None else [None, cut]) + ([3.1] if cut is None else []):
+                orders = [2, 3] if c is None else [2, 3, 4]
+                try:
+                    o = S(at, cutoff=None if c is None else {2: c, 3: c, 4: c})
+                    o.compute_basis_set(orders=orders)
+                except (IndexError, ValueError):
+                    continue
+                for k in orders:
+                    b = o.basis_set[k]
+                    out[("F", k, c)] = np.asarray(b.compression_matrix @ b.basis_set)
             for compact in (False, True):
-                o = S(atoms_of(sc), displacements=d.copy(), forces=f.copy())
+                o = S(at, displacements=d.copy(), forces=f.copy())
                 o.compute_basis_set(orders=[2, 3])
                 usable = [k for k in (2, 3) if o.basis_set[k].basis_set.shape[1] > 0]
                 if usable != [2, 3]:
                     usable = [2]
                 o.solve(orders=usable, is_compact_fc=compact)
                 for k in usable:
-                    out[(k, compact)] = np.array(o.force_constants[k])
-                if not compact:
-                    for k in (2, 3):
-                        b = o.basis_set[k]
-                        out[("F", k)] = np.asarray(b.compression_matrix @ b.basis_set)
+                    out[("fc", k, compact)] = np.array(o.force_constants[k])
             return out
-        ctx.case({"twin_supercells": [A["name"], B["name"]], "N": N}, nontrivial=True)
-        ctx.count("twin-supercells")
-        rep = {"first": {"name": A["name"], "lattice": np.asarray(A["lattice"]).tolist(), "positions": np.asarray(A["positions"]).tolist(), "numbers": [int(z) for z in A["numbers"]]},
+        ctx.case({"twin_supercells": [A["name"], B["name"]], "agree_in": what, "N": N}, nontrivial=True)
+        ctx.count("twin-supercells:" + what)
+        rep = {"agree_in": what, "cutoff": cut,
+               "first": {"name": A["name"], "lattice": np.asarray(A["lattice"]).tolist(), "positions": np.asarray(A["positions"]).tolist(), "numbers": [int(z) for z in A["numbers"]]},
                "second": {"name": B["name"], "lattice": np.asarray(B["lattice"]).tolist(), "positions": np.asarray(B["positions"]).tolist(), "numbers": [int(z) for z in B["numbers"]]}}
         try:
             S1 = fresh_symfc()
@@ -127,9 +151,14 @@ def twin_supercells(ctx, rng):
             continue
         for key in alone:
             a, b = after.get(key), alone[key]
-            if a is None or a.shape != b.shape or not np.abs(a - b).max() <= 1e-9 * max(np.abs(b).max(), 1e-300):
-                what = f"order-{key[1]} expanded basis" if key[0] == "F" else f"fc{key[0]} ({'compact' if key[1] else 'full'})"
-                ctx.fail("oracle", "C12/oracle/twin-supercells", f"{what} of {B['name']} differs when {A['name']} (same atom and lattice-point counts) was processed before it in the same process", replay={**rep, "item": str(key)}, has_input=True)
+            if key[0] == "F":
+                ok = a is not None and a.shape[0] == b.shape[0] and same_span(a, b)[0]
+                item = f"order-{key[1]} expanded basis (cutoff {key[2]})"
+            else:
+                ok = a is not None and a.shape == b.shape and bool(np.abs(a - b).max() <= 1e-9 * max(np.abs(b).max(), 1e-300))
+                item = f"fc{key[1]} ({'compact' if key[2] else 'full'})"
+            if not ok:
+                ctx.fail("oracle", "C12/oracle/twin-supercells", f"{item} of {B['name']} differs when {A['name']} (agreeing in: {what}) was processed before it in the same process", replay={**rep, "item": str(key)}, has_input=True)
                 break
 
 
